@@ -3,6 +3,7 @@ import PyamgV.Model.C16Coarse
 import PyamgV.Proofs.C16Hist
 import PyamgV.Proofs.C16LinAlg
 import PyamgV.Proofs.C16Bridge
+import PyamgV.Proofs.ExtC16Complex
 import PyamgV.Proofs.C16Spec
 import PyamgV.Proofs.C16Relax
 import PyamgV.Proofs.Kaczmarz
@@ -24,7 +25,8 @@ hypotheses.  `toMat`, `toVec` read the model's arrays as Mathlib matrices / vect
 Clause by clause (T = theorem about the executed model, H = hypothesis checked per instance, S = search only):
 * direct solvers return the solution in the shape of `b`  — T `pinv/lu/cholesky_call_solves`, `splu_call_spec`,
   `call_shape`; H the inverse certificate `isInv` (and `isHPD` for Cholesky); S rounding of LAPACK/SuperLU
-* pinv = minimum-norm least squares on singular matrices — T `pinv_call_min_norm`; H `isPinv` (real case; complex S)
+* pinv = minimum-norm least squares on singular matrices — T `pinv_call_min_norm` (real), `pinv_call_min_norm_complex`
+  (complex runs, `conj = CRat.conj`, minimisation over all of `ℂⁿ`); H `isPinv`
 * splu tolerates zero rows and columns                    — T `splu_call_spec`, `splu_call_solves_all`
 * repeated calls reuse the factorisation and stay correct — T `run_same_matrix`, `run_factor_once`
 * a matrix without nonzeros yields a zero correction      — T `call_empty`
@@ -82,6 +84,52 @@ restate matVec_is_mulVec := PyamgV.C16.toVec_matVec
 restate scatter_is_map := PyamgV.C16.toVec_scatter
 restate gather_is_mapT := PyamgV.C16.toVec_gather
 restate submat_is_submatrix := PyamgV.C16.toMat_submat
+
+/-! ### complex matrices (extension E14, Proofs/ExtC16Complex.lean)
+
+`ReForm K R`: a field `K` with conjugation `star` and a real part `re : K →+ R` into an ordered field,
+`N.nrm v = re (vᴴ v)`; instances `ReForm.rclike 𝕜` (`ℂ`, `ℝ`; `nrm v = Σ ‖v i‖²`) and `ReForm.crat` (the
+Gaussian rationals of the models).  `PenroseH A X`: the Penrose equations with `ᴴ`, rectangular `A`.
+`toMatC`, `toVecC`: the `CRat` arrays of the driver read as matrices / vectors over `ℂ`. -/
+
+/-- complex least squares: `‖A X b − b‖ ≤ ‖A y − b‖` for every `y` -/
+restate penroseH_least_squares := PyamgV.C16X.penroseH_least_squares
+/-- complex minimum norm: among the minimisers `X b` is the shortest ... -/
+restate penroseH_min_norm := PyamgV.C16X.penroseH_min_norm
+/-- ... and the only one of that length -/
+restate penroseH_min_norm_unique := PyamgV.C16X.penroseH_min_norm_unique
+restate penroseH_of_inverse := PyamgV.C16X.penroseH_of_inverse
+/-- the four equations determine `X` (so `pinvD` passing `isPinv` *is* the Moore-Penrose inverse) -/
+restate penroseH_unique := PyamgV.C16X.penroseH_unique
+restate penroseH_map := PyamgV.C16X.PenroseH.map
+restate rclike_nrm_eq_sum := PyamgV.C16X.rclike_nrm_eq_sum
+
+/-- `isPinv star A X n = true` (any star field) gives `PenroseH` of the matrices read off the arrays -/
+restate isPinv_sound_star := PyamgV.C16X.isPinv_sound_star
+/-- the certificate of the complex runs, over the Gaussian rationals ... -/
+restate isPinv_sound_crat := PyamgV.C16X.isPinv_sound_crat
+/-- ... and over `ℂ` -/
+restate isPinv_sound_complex := PyamgV.C16X.isPinv_sound_complex
+restate isInv_sound_crat := PyamgV.C16X.isInv_sound_crat
+restate isInv_sound_complex := PyamgV.C16X.isInv_sound_complex
+/-- `isHPD star isPos M n = true` with `isPos z → 0 < re z`: `M = Mᴴ` and `Re (xᴴ M x) > 0` for all `x ≠ 0` -/
+restate isHPD_sound_map := PyamgV.C16X.isHPD_sound_map
+restate isHPD_sound_crat := PyamgV.C16X.isHPD_sound_crat
+/-- the driver's `isHPD CRat.conj posC`: Hermitian and positive definite over `ℂ` -/
+restate isHPD_sound_complex := PyamgV.C16X.isHPD_sound_complex
+restate isHPD_posDef_complex := PyamgV.C16X.isHPD_posDef_complex
+restate matVec_is_mulVec_complex := PyamgV.C16X.toVecC_matVec
+
+/-- pseudo-inverse clause for the model run with any conjugation `star` -/
+restate pinv_call_min_norm_star := PyamgV.C16X.pinv_call_min_norm_star
+/-- **pseudo-inverse clause, complex**: minimum-norm least-squares solution among all complex vectors -/
+restate pinv_call_min_norm_complex := PyamgV.C16X.pinv_call_min_norm_complex
+/-- `pinv` (nonsingular) / `lu` / `cholesky` of the model run with any `conj`: the unique solution -/
+restate direct_call_solves_conj := PyamgV.C16X.direct_call_solves_conj
+/-- ... unique among all complex vectors -/
+restate direct_call_solves_complex := PyamgV.C16X.direct_call_solves_complex
+restate splu_call_spec_conj := PyamgV.C16X.splu_call_spec_conj
+restate splu_call_solves_all_conj := PyamgV.C16X.splu_call_solves_all_conj
 
 /-! ## 3. relaxation-based coarse solvers -/
 
@@ -146,6 +194,15 @@ def noCb : K.Csr Rat → Arr Rat → Except String (Arr Rat) := fun _ _ => .erro
 not an inverse -/
 example : isPinv id (#[#[1, 1], #[1, 1]] : C02.Dense Rat) (pinvD id #[#[1, 1], #[1, 1]] 2) 2 = true ∧
     isInv (#[#[1, 1], #[1, 1]] : C02.Dense Rat) (pinvD id #[#[1, 1], #[1, 1]] 2) 2 = false := by decide +kernel
+
+/-- complex: the singular Hermitian matrix `[[1, i], [-i, 1]]` (rank 1) passes the Penrose certificate with
+`CRat.conj` and is not inverted; `[[2, i], [-i, 2]]` passes `isHPD`; `[[1, 2i], [-2i, 1]]` (indefinite) does not -/
+example :
+    let A : C02.Dense CRat := #[#[⟨1, 0⟩, ⟨0, 1⟩], #[⟨0, -1⟩, ⟨1, 0⟩]]
+    isPinv CRat.conj A (pinvD CRat.conj A 2) 2 = true ∧ isInv A (pinvD CRat.conj A 2) 2 = false ∧
+    isHPD CRat.conj Drv.C16.posC (#[#[⟨2, 0⟩, ⟨0, 1⟩], #[⟨0, -1⟩, ⟨2, 0⟩]] : C02.Dense CRat) 2 = true ∧
+    isHPD CRat.conj Drv.C16.posC (#[#[⟨1, 0⟩, ⟨0, 2⟩], #[⟨0, -2⟩, ⟨1, 0⟩]] : C02.Dense CRat) 2 = false := by
+  decide +kernel
 
 /-- a `splu` object on `[[2,0,-1],[0,0,0],[-1,0,2]]` (zero row and column 1): two calls, column- and
 vector-shaped right-hand sides, one factorisation, results `(1,0,1)` and `(2,0,1)` in the shapes of `b` -/
